@@ -159,3 +159,15 @@ PROPS["C15"] = {
               "text": "Generated-input search: every history up to length 5 (6 in thorough) over {write at 4 levels, Trigger, Close, fresh instance} for 25 threshold pairs and both destination kinds, plus random histories over the whole int8 level range with lines crossing the pooled-buffer sizes and several instances in sequence (pool hand-over), must leave the destination equal to the model after every step. Concurrent writers must lose, duplicate or alter no line, keep per-goroutine order and never overlap in the destination. Held on everything explored.",
               "note": "Sequential part deterministic; concurrent part limited to runtime-produced interleavings."},
 }
+
+PROPS["C19"] = {
+    "jobs": [
+        {"name": "product", "pkg": "./c19", "run": "^(TestExhaustiveProduct|TestSplitLines)$", "timeout": T(600, 3600)},
+        {"name": "sequences", "pkg": "./c19", "run": "^TestRapidSequences$", "rapid": T(5000, 50000), "shards": T(1, 8), "replay": "^TestReplay$"},
+    ],
+    "assumptions": ["the expected site is captured by runtime.Callers on the same source line as the statement under test (the generated call sites are one line each and gofmt-stable)",
+                    "CallerMarshalFunc is the default (file:line); std-library log.Logger writing through Logger.Write is outside the statement (its frame is inside package log)"],
+    "claim": {"ref": "DESIGN.md §5 C19", "technique": "exhaustive enumeration of a generated product of call sites x mechanisms x skips x wrapper depths x hook arrangements + rapid sequences on shared loggers; oracle: runtime.Callers captured on the same source line",
+              "text": "Generated-input search: 722 generated call sites (17 entry points x 6 finalizers x Event/Context caller mechanisms, the Print family on a Logger and in package log, direct Logger.Write) are executed through 0..3 (0..5 thorough) wrapper frames with skips 0..3 (0..5), under Context.Caller, CallerWithSkipFrameCount(2+j) and a global CallerSkipFrameCount of 2+j, with other hooks before/after; the caller field must be exactly one and equal the frame the oracle captured. Sequences on shared loggers check that pooled events do not inherit skip counts. Held on everything explored.",
+              "note": "Trusts runtime.Callers/CallersFrames. Skips deeper than the harness's own stack are not cases."},
+}
